@@ -154,9 +154,9 @@ package conv
 
 //go:generate go run github.com/reedom/convergen@latest
 type Convergen interface {
-	// PetToDTO copies a pet.
+	// PetToDTO copies a pet, 100%s of it.
 	// :typecast
-	// :skip Label
+	// :literal Label "50%v off"
 	PetToDTO(*Pet) *PetDTO
 	// :map Name Label
 	// :typecast
@@ -172,8 +172,8 @@ import (
 	mdl "fsw/app/model"
 )
 
-// Limit is kept.
-const Limit = 10
+// Limit is kept (100%d of it).
+const Limit = 10 % 11
 
 // :convergen
 // :stringer
